@@ -4,7 +4,7 @@ set -u
 patch=$1
 wt=${SCRATCH_WT:-/tmp/wt/scratch}
 if [ ! -d "$wt" ]; then git -C /repo worktree add -q --detach "$wt" HEAD; fi
-git -C "$wt" checkout -q -- .
+git -C "$wt" checkout -q -- . && git -C "$wt" clean -fdq
 if ! git -C "$wt" apply "$patch"; then echo "PATCH-APPLY-FAILED $patch"; exit 3; fi
 export VERIF_OUT_DIR=/tmp/verif_scratch_out
 for n in 01 02 03 04 05 06 07 08 09 10 11 12 13 14 15 16 17 18 19 20; do
@@ -14,4 +14,4 @@ wait
 for n in 01 02 03 04 05 06 07 08 09 10 11 12 13 14 15 16 17 18 19 20; do
   if ! grep -q "exit=0" /tmp/verif_scratch_out/_r_C$n.txt; then echo "--- C$n"; grep -E "^(ANALYSIS-ERROR|  rule|C[0-9]+ )" /tmp/verif_scratch_out/_r_C$n.txt | cut -c1-330 | head -6; grep -E "^C[0-9]+ " /tmp/verif_scratch_out/_r_C$n.txt | cut -c1-120; fi
 done
-git -C "$wt" checkout -q -- .
+git -C "$wt" checkout -q -- . && git -C "$wt" clean -fdq
